@@ -112,6 +112,39 @@ theorem hasDup_false_nodup : ∀ (xs : List Nat), hasDup xs = false → xs.Nodup
     have : xs.contains x = true := by simpa using hm
     rw [this] at h; exact absurd h.1 (by decide)
 
+/-- what the validator loop of `ValidateGenesisState` guarantees when it passes -/
+theorem genesisValidatorsError_none : ∀ (vals : List GenesisValidator) (seen : List Addr), genesisValidatorsError seen vals = none →
+    (∀ g ∈ vals, g.addr ∉ seen) ∧ hasDup (vals.map (·.addr)) = false ∧ ∀ g ∈ vals, hasDup g.val.committees = false
+  | [], _, _ => ⟨fun _ h => by simp at h, rfl, fun _ h => by simp at h⟩
+  | g :: rest, seen, h => by
+    unfold genesisValidatorsError at h
+    split at h
+    · cases h
+    · next hs =>
+      split at h
+      · cases h
+      · next hc =>
+        obtain ⟨i1, i2, i3⟩ := genesisValidatorsError_none rest (g.addr :: seen) h
+        refine ⟨?_, ?_, ?_⟩
+        · intro g' hg'
+          simp only [List.mem_cons] at hg'
+          rcases hg' with rfl | hg'
+          · simpa using hs
+          · exact fun hm => i1 g' hg' (List.mem_cons_of_mem _ hm)
+        · simp only [List.map_cons, hasDup, Bool.or_eq_false_iff]
+          refine ⟨?_, i2⟩
+          cases hcon : (rest.map (·.addr)).contains g.addr with
+          | false => rfl
+          | true =>
+            have hm : g.addr ∈ rest.map (·.addr) := by simpa using hcon
+            obtain ⟨g', hg', e⟩ := List.mem_map.1 hm
+            exact absurd (by rw [e]; exact List.mem_cons_self ..) (i1 g' hg')
+        · intro g' hg'
+          simp only [List.mem_cons] at hg'
+          rcases hg' with rfl | hg'
+          · simpa using hc
+          · exact i3 g' hg'
+
 theorem keys_put {κ} [DecidableEq κ] [KLt κ] (m : NMap κ) (k x : κ) (v : Nat) (h : x ∈ (NMap.put m k v).map (·.1)) :
     x = k ∨ x ∈ m.map (·.1) := by
   unfold NMap.put at h
@@ -360,7 +393,9 @@ theorem genesis_invSupply {cfg : Config} {params : Params} {accounts : List (Add
       · exact absurd hval (by intro h; cases h)
       · split at hval
         · exact absurd hval (by intro h; cases h)
-        · next hdv =>
+        · next hcv =>
+          have hdv := (genesisValidatorsError_none _ _ hcv).2.1
+          have hdc := (genesisValidatorsError_none _ _ hcv).2.2
           split at hval
           · exact absurd hval (by intro h; cases h)
           · next hda =>
